@@ -601,6 +601,57 @@ func genFacts(w *bufio.Writer, repo string) error {
 		}
 		strFacts["segment"+fn+"Steps"] = fileOps(fd)
 	}
+	// Segment.Migrate / Segment.Recover (the programs of Klev/CrashOpen.lean): removals, renames and whole-file
+	// index writes in source order, each named after the file that appears / disappears; the temporary files
+	// (`.migrate`, `.recover`) are not part of the directory state and are left out
+	openOps := func(fd *ast.FuncDecl) string {
+		var out []string
+		ast.Inspect(fd.Body, func(n ast.Node) bool {
+			c, ok := n.(*ast.CallExpr)
+			if !ok {
+				return true
+			}
+			f := exprStr(c.Fun)
+			var arg, verb string
+			// `s.Log + ".recover"`: a path built from a literal suffix names a temporary file
+			if len(c.Args) >= 1 {
+				if be, ok := c.Args[0].(*ast.BinaryExpr); ok && (f == "os.Remove") {
+					if lit, ok := be.Y.(*ast.BasicLit); ok && (strings.Contains(lit.Value, "recover") || strings.Contains(lit.Value, "migrate")) {
+						return true
+					}
+				}
+			}
+			switch {
+			case f == "os.Remove" && len(c.Args) == 1:
+				arg, verb = exprStr(c.Args[0]), "Remove"
+			case f == "os.Rename" && len(c.Args) == 2:
+				arg, verb = exprStr(c.Args[1]), "Rename"
+			case f == "index.Write" && len(c.Args) >= 1:
+				arg, verb = exprStr(c.Args[0]), "Rename" // written to a temp file and renamed in (index.Write)
+			default:
+				return true
+			}
+			switch {
+			case arg == "s.Index":
+				out = append(out, verb+":index")
+			case arg == "s.Log" || arg == "log.Path":
+				out = append(out, verb+":log")
+			case strings.Contains(arg, "migrat") || strings.Contains(arg, "recover") || strings.Contains(arg, "restore"):
+				// a temporary file
+			default:
+				out = append(out, verb+":?"+arg)
+			}
+			return true
+		})
+		return strings.Join(out, ",")
+	}
+	for _, fn := range []string{"Migrate", "Recover"} {
+		fd := segGo.fn("Segment", fn)
+		if err := need(fd, "Segment."+fn); err != nil {
+			return err
+		}
+		strFacts["segment"+fn+"Steps"] = openOps(fd)
+	}
 	// reader.Delete / writer.Delete: which segment-level operations, in which order, on each path
 	calls := func(fd *ast.FuncDecl, of ...string) string {
 		var out []string
